@@ -109,6 +109,7 @@ def run(ctx):
                 'same-named decoy files next to the top-level file, -r / --requirement / -c spellings), scanned through the top-level file; '
                 'go.mod replace directives: version-specific, wildcard, to a version the file does not require, BOTH kinds for the same module in both orders, a directive whose right side is the left side of another (chains, through a wildcard and through a version-specific first directive), a version-specific pin to the same path followed by a wildcard; the expected list follows the go command\'s rule (Spec GoMod.goFinal: exact (path, version) directive, else wildcard directive, else as required; looked up once, never chained), computed by the Lean Spec independently of the extractor\'s loop; '
                 'entries that name no package, in the QUICK tier too: package-lock v1 `"": {…}` and an alias without a target (`"version": "npm:"`) — what is nested below such an entry IS listed —, Pipfile.lock and packages.lock.json entries under an empty key (fixes 4dbc0083, ed6d851c, 94fb6b98: skipped; the Lean models and `expected` say the same); '
+                'every fifth VERSION string of every format is an edge of what the format allows: one character (a digit; a letter for gems, npm, gradle), two characters, or a long one (go.mod excepted: modfile accepts only vX.Y.Z, its single-digit components were generated already); '
                 'every sixth case of apk / gradle / Gemfile.lock / requirements.txt carries one more line a reader must pass over (comment, apk D: field, a platform entry) of 65 534, 65 535, 65 536 or 70 000 bytes — around bufio.Scanner\'s token limit — or (Gemfile.lock) a platform twin of a gem (`name (1.2.3-x86_64-linux)`); these are judged against the generator\'s list (src=gen: the Lean WF assumes short lines); '
                 'plus for the five line formats a malformed stream (line soups, truncations, swapped delimiters, odd bytes, lines around 64 KiB) with expected = ?; thorough adds every layout '
                 'of every ordered subset of a 3-record set. non-trivial = a well-formed case listing >= 2 packages; distinct = distinct case lines')
